@@ -520,6 +520,17 @@ func genC11(r *Rnd, t Tier) *Case {
 		if op.Ctx == CtxValue {
 			op.CtxKey = pick(r, "", "k1", "k2", "k3", KeyEmpty, KeyNonString)
 		}
+		if r.P(0.08) {
+			// a caller that has already given up (or gives up at once): a hit is still a hit, a miss still returns
+			// and stores what the inside produced
+			if op.Ctx == CtxValue {
+				op.Ctx = CtxCancelValue
+			} else {
+				op.Ctx = CtxCancel
+			}
+			op.CancelSrc = SrcCtxCancel
+			op.CancelAt = time.Duration(r.Range(0, 2)) * unit
+		}
 		ops = append(ops, op)
 	}
 	sc.Clients = []Client{{Ops: ops}}
